@@ -1,0 +1,596 @@
+//go:build verif
+
+package scheduler
+
+import (
+	"fmt"
+	"sort"
+	"time"
+	"unsafe"
+
+	remoteexecution "github.com/bazelbuild/remote-apis/build/bazel/remote/execution/v2"
+	scheduler_invocation "github.com/buildbarn/bb-remote-execution/pkg/scheduler/invocation"
+)
+
+// This file is only compiled with the "verif" build tag. It adds a
+// read-only structural inspector used by the deterministic simulation
+// harness; it does not alter any existing behaviour.
+
+// VerifCounts holds object counts of an InMemoryBuildQueue.
+type VerifCounts struct {
+	Operations          int
+	TasksQueued         int
+	TasksExecuting      int
+	TasksCompleted      int
+	NonRootInvocations  int
+	Workers             int
+	IdleSynchronizing   int
+	SizeClassQueues     int
+	DynamicQueues       int
+	PlatformQueues      int
+	PendingCleanups     int
+	DedupEntries        int
+	QueuedOperations    int
+	BackgroundOperation int
+}
+
+// VerifLock returns a pointer to the big lock, so that a simulator that
+// owns the mutex implementation can tell whether it is held.
+func (bq *InMemoryBuildQueue) VerifLock() interface{} {
+	return &bq.lock
+}
+
+// VerifWorker describes a worker known to the scheduler.
+type VerifWorker struct {
+	Queue          VerifQueueKey
+	WorkerKey      string
+	WorkerID       map[string]string
+	ActionDigest   string // hash of the assigned task's action digest, "" if none
+	TaskID         uintptr
+	Blocked        bool // inside a blocking Synchronize, waiting for work
+	Terminating    bool
+	InSync         bool // cleanup key inactive: a Synchronize call is in progress
+	Timeout        time.Time
+	LastInvocation []string
+}
+
+// VerifQueueKey identifies a size class queue.
+type VerifQueueKey struct {
+	InstanceNamePrefix string
+	Platform           string
+	SizeClass          uint32
+}
+
+// VerifQueue describes a size class queue.
+type VerifQueue struct {
+	Key          VerifQueueKey
+	MayBeRemoved bool
+	Drains       []map[string]string
+	Workers      int
+	Timeout      time.Time
+	HasTimeout   bool
+	SizeClasses  []uint32 // all size classes of the platform queue
+}
+
+// VerifOperation describes an operation and its task.
+type VerifOperation struct {
+	Name               string
+	TaskID             uintptr
+	Queue              VerifQueueKey
+	InstanceName       string
+	ActionDigest       string
+	Stage              remoteexecution.ExecutionStage_Value
+	Response           *remoteexecution.ExecuteResponse
+	DoNotCache         bool
+	Background         bool
+	Waiters            uint
+	HasTimeout         bool
+	Timeout            time.Time
+	Priority           int32
+	Invocation         []string
+	TaskOps            int
+	RetryCount         int
+	ExpectedDuration   time.Duration
+	QueuedAt           time.Time
+	ActionTimeout      time.Duration
+	InstanceNameSuffix string
+	WorkerKey          string
+}
+
+// VerifSnapshot is a consistent view of the scheduler's state.
+type VerifSnapshot struct {
+	Now             time.Time
+	Workers         []VerifWorker
+	Queues          []VerifQueue
+	Operations      []VerifOperation
+	EarliestCleanup time.Time
+	HasCleanup      bool
+}
+
+func verifQueueKey(k sizeClassKey) VerifQueueKey {
+	return VerifQueueKey{
+		InstanceNamePrefix: k.platformKey.GetInstanceNamePrefix().String(),
+		Platform:           k.platformKey.GetPlatformString(),
+		SizeClass:          k.sizeClass,
+	}
+}
+
+func verifKeys(keys []scheduler_invocation.Key) []string {
+	out := make([]string, 0, len(keys))
+	for _, k := range keys {
+		out = append(out, string(k))
+	}
+	return out
+}
+
+// VerifSnapshotUnlocked returns a description of all workers, queues and
+// operations. Must be called while the lock is free and nothing else
+// runs. Entries are sorted, so that the result is reproducible.
+func (bq *InMemoryBuildQueue) VerifSnapshotUnlocked() *VerifSnapshot {
+	s := &VerifSnapshot{Now: bq.now}
+	for key, scq := range bq.sizeClassQueues {
+		q := VerifQueue{Key: verifQueueKey(key), MayBeRemoved: scq.mayBeRemoved, Workers: len(scq.workers), SizeClasses: append([]uint32(nil), scq.platformQueue.sizeClasses...)}
+		for _, d := range scq.drains {
+			q.Drains = append(q.Drains, d.WorkerIdPattern)
+		}
+		if scq.cleanupKey.isActive() {
+			q.HasTimeout = true
+			q.Timeout = bq.cleanupQueue.heap[scq.cleanupKey-1].timestamp
+		}
+		s.Queues = append(s.Queues, q)
+		for wk, w := range scq.workers {
+			e := VerifWorker{
+				Queue:       q.Key,
+				WorkerKey:   string(wk),
+				WorkerID:    wk.getWorkerID(),
+				Blocked:     w.wakeup != nil,
+				Terminating: w.terminating,
+				InSync:      !w.cleanupKey.isActive(),
+			}
+			if w.cleanupKey.isActive() {
+				e.Timeout = bq.cleanupQueue.heap[w.cleanupKey-1].timestamp
+			}
+			if t := w.currentTask; t != nil {
+				e.ActionDigest = t.desiredState.ActionDigest.GetHash()
+				e.TaskID = uintptr(unsafe.Pointer(t))
+			}
+			if w.lastInvocation != nil {
+				e.LastInvocation = verifKeys(w.lastInvocation.invocationKeys)
+			}
+			s.Workers = append(s.Workers, e)
+		}
+	}
+	sort.Slice(s.Queues, func(i, j int) bool { return fmt.Sprint(s.Queues[i].Key) < fmt.Sprint(s.Queues[j].Key) })
+	sort.Slice(s.Workers, func(i, j int) bool {
+		if a, b := fmt.Sprint(s.Workers[i].Queue), fmt.Sprint(s.Workers[j].Queue); a != b {
+			return a < b
+		}
+		return s.Workers[i].WorkerKey < s.Workers[j].WorkerKey
+	})
+	for name, o := range bq.operationsNameMap {
+		t := o.task
+		e := VerifOperation{
+			Name:               name,
+			TaskID:             uintptr(unsafe.Pointer(t)),
+			InstanceName:       t.actionDigest.GetInstanceName().String(),
+			ActionDigest:       t.actionDigest.GetHashString(),
+			Stage:              t.getStage(),
+			Response:           t.executeResponse,
+			Background:         o.mayExistWithoutWaiters,
+			Waiters:            o.waiters,
+			Priority:           o.priority,
+			TaskOps:            len(t.operations),
+			RetryCount:         t.retryCount,
+			ExpectedDuration:   t.expectedDuration,
+			QueuedAt:           t.desiredState.QueuedTimestamp.AsTime(),
+			InstanceNameSuffix: t.desiredState.InstanceNameSuffix,
+		}
+		if a := t.desiredState.Action; a != nil {
+			e.DoNotCache = a.DoNotCache
+			e.ActionTimeout = a.Timeout.AsDuration()
+		}
+		if t.currentWorker != nil {
+			e.WorkerKey = string(t.currentWorker.workerKey)
+		}
+		if t.executeResponse == nil && len(t.operations) > 0 {
+			e.Queue = verifQueueKey(t.getCurrentSizeClassQueue().getKey())
+			e.Invocation = verifKeys(o.invocation.invocationKeys)
+		}
+		if o.cleanupKey.isActive() {
+			e.HasTimeout = true
+			e.Timeout = bq.cleanupQueue.heap[o.cleanupKey-1].timestamp
+		}
+		s.Operations = append(s.Operations, e)
+	}
+	sort.Slice(s.Operations, func(i, j int) bool { return s.Operations[i].Name < s.Operations[j].Name })
+	if len(bq.cleanupQueue.heap) > 0 {
+		s.HasCleanup = true
+		s.EarliestCleanup = bq.cleanupQueue.heap[0].timestamp
+	}
+	return s
+}
+
+type verifWalker struct {
+	bq         *InMemoryBuildQueue
+	violations []string
+	counts     VerifCounts
+}
+
+func (v *verifWalker) fail(format string, args ...interface{}) {
+	if len(v.violations) < 20 {
+		v.violations = append(v.violations, fmt.Sprintf(format, args...))
+	}
+}
+
+func (i *invocation) verifName() string {
+	s := "/"
+	for _, k := range i.invocationKeys {
+		s += string(k) + "/"
+	}
+	return s
+}
+
+func verifInSubtree(i, root *invocation) bool {
+	for ; i != nil; i = i.parent {
+		if i == root {
+			return true
+		}
+	}
+	return false
+}
+
+func (v *verifWalker) walkInvocation(scq *sizeClassQueue, i *invocation, parent *invocation, depth int) {
+	name := i.verifName()
+	if i.sizeClassQueue != scq {
+		v.fail("invocation %s: wrong sizeClassQueue back-pointer", name)
+	}
+	if i.parent != parent {
+		v.fail("invocation %s: wrong parent pointer", name)
+	}
+	if len(i.invocationKeys) != depth {
+		v.fail("invocation %s: depth %d but %d keys", name, depth, len(i.invocationKeys))
+	}
+	if parent != nil {
+		v.counts.NonRootInvocations++
+		if !i.isActive() && i.idleWorkersCount == 0 {
+			v.fail("invocation %s: exists although it is neither active nor has idle workers", name)
+		}
+	}
+	// Directly queued operations.
+	for k, o := range i.queuedOperations {
+		v.counts.QueuedOperations++
+		if o.queueIndex != k {
+			v.fail("invocation %s: queuedOperations[%d].queueIndex == %d", name, k, o.queueIndex)
+		}
+		if o.invocation != i {
+			v.fail("invocation %s: queued operation %s belongs to another invocation", name, o.name)
+		}
+		if o.task.getStage() != remoteexecution.ExecutionStage_QUEUED {
+			v.fail("invocation %s: queued operation %s has task in stage %s", name, o.name, o.task.getStage())
+		}
+		if v.bq.operationsNameMap[o.name] != o {
+			v.fail("invocation %s: queued operation %s is not in operationsNameMap", name, o.name)
+		}
+	}
+	// Children.
+	queuedChildren := 0
+	idleChildren := 0
+	for key, c := range i.children {
+		if len(c.invocationKeys) != depth+1 || c.invocationKeys[depth] != key {
+			v.fail("invocation %s: child stored under wrong key", c.verifName())
+		}
+		v.walkInvocation(scq, c, i, depth+1)
+		if c.isQueued() {
+			queuedChildren++
+			if c.queuedChildrenIndex < 0 || c.queuedChildrenIndex >= len(i.queuedChildren) || i.queuedChildren[c.queuedChildrenIndex] != c {
+				v.fail("invocation %s: has queued operations but is not in parent's queuedChildren (index %d)", c.verifName(), c.queuedChildrenIndex)
+			}
+		} else if c.queuedChildrenIndex != -1 {
+			v.fail("invocation %s: has no queued operations but queuedChildrenIndex == %d", c.verifName(), c.queuedChildrenIndex)
+		}
+		if len(c.idleSynchronizingWorkers)+len(c.idleSynchronizingWorkersChildren) > 0 {
+			idleChildren++
+			if c.idleSynchronizingWorkersChildrenIndex < 0 || c.idleSynchronizingWorkersChildrenIndex >= len(i.idleSynchronizingWorkersChildren) || i.idleSynchronizingWorkersChildren[c.idleSynchronizingWorkersChildrenIndex] != c {
+				v.fail("invocation %s: has idle synchronizing workers but is not in parent's heap (index %d)", c.verifName(), c.idleSynchronizingWorkersChildrenIndex)
+			}
+		} else if c.idleSynchronizingWorkersChildrenIndex != -1 {
+			v.fail("invocation %s: has no idle synchronizing workers but index == %d", c.verifName(), c.idleSynchronizingWorkersChildrenIndex)
+		}
+	}
+	if queuedChildren != len(i.queuedChildren) {
+		v.fail("invocation %s: queuedChildren has %d entries, %d children qualify", name, len(i.queuedChildren), queuedChildren)
+	}
+	if idleChildren != len(i.idleSynchronizingWorkersChildren) {
+		v.fail("invocation %s: idleSynchronizingWorkersChildren has %d entries, %d children qualify", name, len(i.idleSynchronizingWorkersChildren), idleChildren)
+	}
+	if parent == nil {
+		if i.queuedChildrenIndex != 0 && i.queuedChildrenIndex != -1 {
+			// Root invocations are zero-initialized; index is unused.
+			v.fail("root invocation has queuedChildrenIndex %d", i.queuedChildrenIndex)
+		}
+	}
+	// Idle synchronizing workers.
+	for k, e := range i.idleSynchronizingWorkers {
+		w := e.worker
+		v.counts.IdleSynchronizing++
+		if w.listIndex != k || e.listIndex != &w.listIndex {
+			v.fail("invocation %s: idleSynchronizingWorkers[%d] has listIndex %d", name, k, w.listIndex)
+		}
+		if w.lastInvocation != i {
+			v.fail("invocation %s: idle synchronizing worker %s has another lastInvocation", name, w.workerKey)
+		}
+		if w.wakeup == nil {
+			v.fail("invocation %s: idle synchronizing worker %s has no wakeup channel", name, w.workerKey)
+		}
+		if scq.workers[w.workerKey] != w {
+			v.fail("invocation %s: idle synchronizing worker %s is not in the worker table", name, w.workerKey)
+		}
+	}
+	// Idle workers count.
+	idle := uint32(0)
+	for _, w := range scq.workers {
+		if w.lastInvocation != nil && verifInSubtree(w.lastInvocation, i) {
+			idle++
+		}
+	}
+	if idle != i.idleWorkersCount {
+		v.fail("invocation %s: idleWorkersCount == %d, but %d workers last served it", name, i.idleWorkersCount, idle)
+	}
+	// Executing workers.
+	for w, n := range i.executingWorkers {
+		if n <= 0 {
+			v.fail("invocation %s: executingWorkers entry with count %d", name, n)
+		}
+		if scq.workers[w.workerKey] != w {
+			v.fail("invocation %s: executing worker %s is not in the worker table", name, w.workerKey)
+			continue
+		}
+		t := w.currentTask
+		if t == nil {
+			v.fail("invocation %s: executing worker %s has no task", name, w.workerKey)
+			continue
+		}
+		expected := 0
+		for oi := range t.operations {
+			if verifInSubtree(oi, i) {
+				expected++
+			}
+		}
+		if expected != n {
+			v.fail("invocation %s: executingWorkers[%s] == %d, expected %d", name, w.workerKey, n, expected)
+		}
+	}
+	for _, w := range scq.workers {
+		if t := w.currentTask; t != nil {
+			expected := 0
+			for oi := range t.operations {
+				if verifInSubtree(oi, i) {
+					expected++
+				}
+			}
+			if expected > 0 && i.executingWorkers[w] != expected {
+				v.fail("invocation %s: worker %s executes %d of its operations but executingWorkers says %d", name, w.workerKey, expected, i.executingWorkers[w])
+			}
+		}
+	}
+}
+
+// VerifCheckInvariantsUnlocked walks all data structures and returns
+// object counts and a list of violated representation invariants. It
+// must only be called while bq.lock is free and no other goroutine is
+// running (the simulator guarantees both).
+func (bq *InMemoryBuildQueue) VerifCheckInvariantsUnlocked() (VerifCounts, []string) {
+	v := &verifWalker{bq: bq}
+
+	// Platform queues, trie and size class queues.
+	v.counts.PlatformQueues = len(bq.platformQueues)
+	sizeClassQueues := 0
+	for idx, pq := range bq.platformQueues {
+		if got := bq.platformQueuesTrie.GetExact(pq.platformKey); got != idx {
+			v.fail("platform queue %d: trie maps its key to %d", idx, got)
+		}
+		if len(pq.sizeClasses) != len(pq.sizeClassQueues) || len(pq.sizeClasses) == 0 {
+			v.fail("platform queue %d: %d size classes, %d size class queues", idx, len(pq.sizeClasses), len(pq.sizeClassQueues))
+			continue
+		}
+		for k, scq := range pq.sizeClassQueues {
+			sizeClassQueues++
+			if k > 0 && pq.sizeClasses[k-1] >= pq.sizeClasses[k] {
+				v.fail("platform queue %d: size classes not strictly increasing", idx)
+			}
+			if scq.sizeClass != pq.sizeClasses[k] || scq.platformQueue != pq {
+				v.fail("platform queue %d: size class queue %d inconsistent", idx, k)
+			}
+			if bq.sizeClassQueues[scq.getKey()] != scq {
+				v.fail("platform queue %d: size class queue %d missing from sizeClassQueues map", idx, k)
+			}
+		}
+	}
+	if sizeClassQueues != len(bq.sizeClassQueues) {
+		v.fail("sizeClassQueues map has %d entries, platform queues hold %d", len(bq.sizeClassQueues), sizeClassQueues)
+	}
+	v.counts.SizeClassQueues = sizeClassQueues
+
+	activeCleanups := 0
+	for _, scq := range bq.sizeClassQueues {
+		if scq.cleanupKey.isActive() {
+			activeCleanups++
+		}
+		if scq.mayBeRemoved {
+			v.counts.DynamicQueues++
+			if (len(scq.workers) > 0) == scq.cleanupKey.isActive() {
+				v.fail("dynamic size class queue: %d workers, removal pending %v", len(scq.workers), scq.cleanupKey.isActive())
+			}
+		} else if scq.cleanupKey.isActive() {
+			v.fail("predeclared size class queue has a removal pending")
+		}
+		pq := scq.platformQueue
+		for key, w := range scq.workers {
+			v.counts.Workers++
+			if w.workerKey != key {
+				v.fail("worker %s stored under key %s", w.workerKey, key)
+			}
+			if w.cleanupKey.isActive() {
+				activeCleanups++
+			}
+			if len(w.stickinessStartingTimes) != len(pq.workerInvocationStickinessLimits) {
+				v.fail("worker %s: %d stickiness times for %d limits", key, len(w.stickinessStartingTimes), len(pq.workerInvocationStickinessLimits))
+			}
+			if t := w.currentTask; t != nil {
+				if t.currentWorker != w {
+					v.fail("worker %s: currentTask does not point back", key)
+				}
+				if w.lastInvocation != nil {
+					v.fail("worker %s: executing but has a lastInvocation", key)
+				}
+				if t.executeResponse != nil {
+					v.fail("worker %s: assigned a completed task", key)
+				}
+				if len(t.operations) == 0 {
+					v.fail("worker %s: assigned a task without operations", key)
+				} else if t.getCurrentSizeClassQueue() != scq {
+					v.fail("worker %s: assigned a task of another size class queue", key)
+				}
+			} else {
+				if w.lastInvocation == nil {
+					v.fail("worker %s: idle but has no lastInvocation", key)
+				} else if w.lastInvocation.sizeClassQueue != scq {
+					v.fail("worker %s: lastInvocation in another size class queue", key)
+				}
+			}
+			if w.wakeup != nil {
+				if w.currentTask != nil {
+					v.fail("worker %s: blocked in Synchronize but has a task", key)
+				}
+				if w.cleanupKey.isActive() {
+					v.fail("worker %s: blocked in Synchronize but removal pending", key)
+				}
+				i := w.lastInvocation
+				if i == nil || w.listIndex < 0 || w.listIndex >= len(i.idleSynchronizingWorkers) || i.idleSynchronizingWorkers[w.listIndex].worker != w {
+					v.fail("worker %s: blocked in Synchronize but not in idleSynchronizingWorkers (index %d)", key, w.listIndex)
+				}
+			} else if w.listIndex != -1 {
+				v.fail("worker %s: not blocked but listIndex == %d", key, w.listIndex)
+			}
+		}
+		v.walkInvocation(scq, &scq.rootInvocation, nil, 0)
+	}
+
+	// Operations and tasks.
+	tasks := map[*task]struct{}{}
+	for name, o := range bq.operationsNameMap {
+		v.counts.Operations++
+		if o.name != name {
+			v.fail("operation %s stored under name %s", o.name, name)
+		}
+		if o.cleanupKey.isActive() {
+			activeCleanups++
+		}
+		if o.mayExistWithoutWaiters {
+			v.counts.BackgroundOperation++
+		}
+		if (o.waiters == 0 && !o.mayExistWithoutWaiters) != o.cleanupKey.isActive() {
+			v.fail("operation %s: waiters %d, mayExistWithoutWaiters %v, removal pending %v", name, o.waiters, o.mayExistWithoutWaiters, o.cleanupKey.isActive())
+		}
+		t := o.task
+		if t.operations[o.invocation] != o {
+			v.fail("operation %s: task does not list it under its invocation", name)
+		}
+		tasks[t] = struct{}{}
+	}
+	for t := range tasks {
+		stage := t.getStage()
+		var scq *sizeClassQueue
+		for i, o := range t.operations {
+			if o.task != t || o.invocation != i {
+				v.fail("task %s: operation %s back-pointers inconsistent", t.actionDigest, o.name)
+			}
+			if bq.operationsNameMap[o.name] != o {
+				v.fail("task %s: operation %s not in operationsNameMap", t.actionDigest, o.name)
+			}
+			if stage != remoteexecution.ExecutionStage_COMPLETED {
+				if scq == nil {
+					scq = i.sizeClassQueue
+				} else if scq != i.sizeClassQueue {
+					v.fail("task %s: operations spread over several size class queues", t.actionDigest)
+				}
+				if bq.sizeClassQueues[i.sizeClassQueue.getKey()] != i.sizeClassQueue {
+					v.fail("task %s: lives in a removed size class queue", t.actionDigest)
+				}
+			}
+			switch stage {
+			case remoteexecution.ExecutionStage_QUEUED:
+				if o.queueIndex < 0 || o.queueIndex >= len(i.queuedOperations) || i.queuedOperations[o.queueIndex] != o {
+					v.fail("task %s: queued, but operation %s is not in its invocation's heap (index %d)", t.actionDigest, o.name, o.queueIndex)
+				}
+			default:
+				if o.queueIndex != -1 {
+					v.fail("task %s: stage %s, but operation %s has queueIndex %d", t.actionDigest, stage, o.name, o.queueIndex)
+				}
+			}
+		}
+		switch stage {
+		case remoteexecution.ExecutionStage_QUEUED:
+			v.counts.TasksQueued++
+		case remoteexecution.ExecutionStage_EXECUTING:
+			v.counts.TasksExecuting++
+			w := t.currentWorker
+			if w.currentTask != t {
+				v.fail("task %s: executing, but its worker points elsewhere", t.actionDigest)
+			}
+			if scq != nil && scq.workers[w.workerKey] != w {
+				v.fail("task %s: executing on a worker that is not in its size class queue", t.actionDigest)
+			}
+		case remoteexecution.ExecutionStage_COMPLETED:
+			v.counts.TasksCompleted++
+			if t.currentWorker != nil || t.stageChangeWakeup != nil || t.initialSizeClassLearner != nil {
+				v.fail("task %s: completed, but still has worker/wakeup/learner", t.actionDigest)
+			}
+		}
+		if stage != remoteexecution.ExecutionStage_COMPLETED {
+			if t.stageChangeWakeup == nil {
+				v.fail("task %s: not completed, but has no wakeup channel", t.actionDigest)
+			}
+			if t.initialSizeClassLearner == nil {
+				v.fail("task %s: not completed, but has no learner", t.actionDigest)
+			}
+			if a := t.desiredState.Action; a == nil {
+				v.fail("task %s: not completed, but action scrubbed", t.actionDigest)
+			} else if !a.DoNotCache {
+				if bq.inFlightDeduplicationMap[t.actionDigest] != t {
+					v.fail("task %s: cacheable and in flight, but not (or another task is) in the in-flight deduplication map", t.actionDigest)
+				}
+			}
+		}
+	}
+	for d, t := range bq.inFlightDeduplicationMap {
+		v.counts.DedupEntries++
+		if t.actionDigest != d {
+			v.fail("deduplication map: entry %s holds task %s", d, t.actionDigest)
+		}
+		if t.executeResponse != nil {
+			v.fail("deduplication map: entry %s holds a completed task", d)
+		}
+		if _, ok := tasks[t]; !ok {
+			v.fail("deduplication map: entry %s holds a task without registered operations", d)
+		}
+	}
+
+	// Cleanup heap.
+	v.counts.PendingCleanups = len(bq.cleanupQueue.heap)
+	for idx, e := range bq.cleanupQueue.heap {
+		if *e.key != cleanupKey(idx+1) {
+			v.fail("cleanup heap: entry %d has key %d", idx, *e.key)
+		}
+	}
+	for idx, e := range bq.cleanupQueue.heap {
+		if !e.timestamp.After(bq.now) {
+			v.fail("cleanup heap: entry %d was due at %s, but the scheduler's time is already %s", idx, e.timestamp.Format(time.RFC3339Nano), bq.now.Format(time.RFC3339Nano))
+			break
+		}
+	}
+	if activeCleanups != len(bq.cleanupQueue.heap) {
+		v.fail("cleanup heap has %d entries, but %d active keys exist on workers, operations and queues", len(bq.cleanupQueue.heap), activeCleanups)
+	}
+	return v.counts, v.violations
+}
